@@ -216,6 +216,7 @@ func runC20Codec(e *Env) error {
 // ---- end to end: the same queries through rpc.Dial <-> rpcserver.PrepareServer and embedded ----
 
 func runC20RPCCase(e *Env, c *jDBCase) error {
+	e.Running(c)
 	dir := tempDir()
 	defer rmDir(dir)
 	t := &c.Table
